@@ -229,7 +229,13 @@ func TestVerif_C10(t *testing.T) {
 	pristinePresets := [][]string{nil, {"Accept-Encoding"}, {"Accept-Encoding", "Cookie, X-Pre"}, {"Origin"}, {"Access-Control-Request-Headers"}, {""},
 		{"Accept-Encoding, Origin"}, {"origin", "Access-Control-Request-Method"}, {"Access-Control-Request-Private-Network, Origin"},
 		{"X-Original-Host"}, {"Origin-Agent-Cluster"}, {"X-Origin"}, {"Access-Control-Request-Headers-X, Accept"}, {"rigin"}, {"*"},
-		{"Access-Control-Request-Headers, Access-Control-Request-Method, Access-Control-Request-Private-Network, Origin"}}
+		{"Access-Control-Request-Headers, Access-Control-Request-Method, Access-Control-Request-Private-Network, Origin"},
+		// the middleware's own names repeated / in other letter case / as a proper subset listed twice
+		// (lesson of seeded change C10-me: counting tokens instead of distinct names)
+		{"Origin, Access-Control-Request-Method", "origin,access-control-request-method"},
+		{"Origin, Origin, ORIGIN, origin"}, {"ORIGIN", "origin", "Origin", "oRiGiN", "Accept"},
+		{"access-control-request-headers , ACCESS-CONTROL-REQUEST-METHOD", "Access-Control-Request-Headers"},
+		{"Access-Control-Request-Private-Network, Access-Control-Request-Private-Network, Access-Control-Request-Private-Network, Origin"}}
 	r.Parallel(len(prod), func(l *Local) {
 		if l.Batch < nProd && !r.visit(l.Batch, cfgStride) {
 			return
